@@ -22,10 +22,10 @@ Definition slot (t : Table) (i : N) : T :=
 Definition get_idx (t : Table) (key : N) : option N :=
   if t_len t =? 0 then None else Some (key mod t_len t).
 
-Definition poll (t : Table) (key : N) : option T :=
+Definition t_poll (t : Table) (key : N) : option T :=
   match get_idx t key with Some i => Some (slot t i) | None => None end.
 
-Definition add (t : Table) (key : N) (e : T) : option Table :=
+Definition t_add (t : Table) (key : N) (e : T) : option Table :=
   match get_idx t key with
   | Some i => Some (mkTable (t_len t) (PositiveMap.add (N.succ_pos i) e (t_map t)))
   | None => None
@@ -37,22 +37,22 @@ Fixpoint count_filled (t : Table) (n : nat) (i : N) : Z :=
   | S n' => ((if teqb (slot t i) dflt then 0 else 1) + count_filled t n' (N.succ i))%Z
   end.
 
-Definition hashfull (t : Table) : option Z :=
+Definition t_hashfull (t : Table) : option Z :=
   let size := N.min (t_len t) 1000 in
   if size =? 0 then None else Some (count_filled t (N.to_nat size) 0).
 
 Definition num_entries (megabytes : N) : N := (megabytes * 1024 * 1024) / esize.
 
 (* Vec::resize(n, default): keeps the first n entries, pads with default *)
-Definition resize (t : Table) (megabytes : N) : Table :=
+Definition t_resize (t : Table) (megabytes : N) : Table :=
   let n := num_entries megabytes in
   mkTable n (PositiveMap.fold
                (fun k v acc => if Pos.pred_N k <? n then PositiveMap.add k v acc else acc)
                (t_map t) (PositiveMap.empty T)).
 
-Definition clear (t : Table) : Table := mkTable (t_len t) (PositiveMap.empty T).
+Definition t_clear (t : Table) : Table := mkTable (t_len t) (PositiveMap.empty T).
 
-Definition t_new (megabytes : N) : Table := resize t_new_empty megabytes.
+Definition t_new (megabytes : N) : Table := t_resize t_new_empty megabytes.
 
 End Table.
 
@@ -66,9 +66,9 @@ Definition tt_eqb (a b : TTEntry) : bool :=
   && (e_score a =? e_score b)%Z && (e_depth a =? e_depth b)%Z && (e_flag a =? e_flag b).
 
 Definition TTable := Table TTEntry.
-Definition tt_poll (t : TTable) (k : N) := poll TTEntry tt_default t k.
-Definition tt_add (t : TTable) (k : N) (e : TTEntry) := add TTEntry t k e.
-Definition tt_hashfull (t : TTable) := hashfull TTEntry tt_default tt_eqb t.
-Definition tt_resize (t : TTable) (mb : N) := resize TTEntry TTENTRY_BYTES_DEFAULT t mb.
-Definition tt_clear (t : TTable) := clear TTEntry t.
+Definition tt_poll (t : TTable) (k : N) := t_poll TTEntry tt_default t k.
+Definition tt_add (t : TTable) (k : N) (e : TTEntry) := t_add TTEntry t k e.
+Definition tt_hashfull (t : TTable) := t_hashfull TTEntry tt_default tt_eqb t.
+Definition tt_resize (t : TTable) (mb : N) := t_resize TTEntry TTENTRY_BYTES_DEFAULT t mb.
+Definition tt_clear (t : TTable) := t_clear TTEntry t.
 Definition tt_new (mb : N) : TTable := t_new TTEntry TTENTRY_BYTES_DEFAULT mb.
